@@ -23,9 +23,9 @@ Scenarios == {
   <<V(Lit(1), Undef), <<R(FALSE, X, "G"), R(FALSE, X, "L")>>>>,
   <<V(Lit(1), Undef), <<R(FALSE, X, "L"), R(FALSE, X, "L")>>>>,          \* shared, same background
   <<V(Lit(2), Undef), <<R(FALSE, X, "L"), R(FALSE, X, "G"), R(FALSE, X, "L")>>>>,
-  <<V(Lit(1), Undef), <<R(FALSE, <<"varfb", "x", 1>>, "L")>>>>,          \* fallback form, property defined
-  <<V(Undef, Undef), <<R(FALSE, <<"varfb", "x", 1>>, "L"), R(FALSE, X, "L")>>>>,   \* fallback used / undefined property
-  <<V(Y, X), <<R(FALSE, X, "L"), R(FALSE, <<"varfb", "y", 1>>, "G")>>>>, \* cycle
+  <<V(Lit(1), Undef), <<R(FALSE, <<"varfb", "x", Lit(1)>>, "L")>>>>,          \* fallback form, property defined
+  <<V(Undef, Undef), <<R(FALSE, <<"varfb", "x", Lit(1)>>, "L"), R(FALSE, X, "L")>>>>,   \* fallback used / undefined property
+  <<V(Y, X), <<R(FALSE, X, "L"), R(FALSE, <<"varfb", "y", Lit(1)>>, "G")>>>>, \* cycle
   <<V(Lit(1), Lit(2)), <<R(TRUE, Lit(1), "none"), R(FALSE, Y, "G")>>>>,  \* literal colour in the :root rule
   <<V(Lit(2), X), <<R(FALSE, Y, "G"), R(FALSE, Y, "L"), R(FALSE, X, "G")>>>>,
   <<V(Lit(1), Lit(1)), <<R(FALSE, X, "L"), R(FALSE, Y, "L"), R(FALSE, Lit(1), "G")>>>>,
